@@ -139,7 +139,16 @@ def r07_1(ctx: Ctx):
         return obs
     ch = child_names[0]
     body = inner[0].body
-    top = [s for s in body]
+    top = []
+    nonnull_guards = []
+    for s in body:
+        # `if <parent> is not None: <parent>.add_child(child)` (a creation helper shared with the root, inlined): the parent is
+        # the loop's own deme here, never None
+        if isinstance(s, ast.If) and not s.orelse and canon(s.test) in (f"{deme_v}isnotNone", deme_v, f"{deme_v}!=None"):
+            top.extend(s.body)
+            nonnull_guards.append(s.test)
+        else:
+            top.append(s)
     add = [s for s in top if isinstance(s, ast.Expr) and isinstance(s.value, ast.Call) and norm(s.value.func) == f"{deme_v}.add_child" and [norm(a) for a in s.value.args] == [ch]]
     app = [s for s in top if isinstance(s, ast.Expr) and isinstance(s.value, ast.Call) and isinstance(s.value.func, ast.Attribute) and s.value.func.attr == "append" and [norm(a) for a in s.value.args] == [ch] and canon(s.value.func.value, defs) in (f"{selfn}._levels[{deme_v}.level+1]", f"{selfn}.levels[{deme_v}.level+1]")]
     all_add = [c for c in ast.walk(inner[0]) if isinstance(c, ast.Call) and isinstance(c.func, ast.Attribute) and c.func.attr == "add_child"]
@@ -158,7 +167,8 @@ def r07_1(ctx: Ctx):
                 continue
             leak = None
             for tgt in targets:
-                pth = cfg.find_path(cnode, tgt, avoid=lambda x, reg=reg: x is reg)
+                # (the false edge of a `parent is not None` guard is not a path: the parent is the loop's deme)
+                pth = cfg.find_path(cnode, tgt, avoid=lambda x, reg=reg: x is reg or (x.kind == "cond" and x.ast is not None and any(canon(x.ast) == canon(g_) or canon(x.ast) in canon(g_) for g_ in nonnull_guards)))
                 if pth is not None and len(pth) > 1:
                     leak = pth
                     break
@@ -277,6 +287,14 @@ def r07_2(ctx: Ctx):
     inner_calls = [c for c in body_walk(g.node) if isinstance(c, ast.Call) and norm(c.func) == f"{g.self_name()}._next_child_id"]
     ok = len(inner_calls) == 1
     why = f"{len(inner_calls)} id computations in _do_sprout"
+    from .common import private_closure
+
+    behind = private_closure(ctx, {g.qualname})
+    helper_calls = [cs for cs in ctx.res.callers_of(f) if cs.caller is not g and cs.caller.qualname in behind]
+    if not inner_calls and helper_calls:
+        # the ids are computed in a private helper that only _do_sprout drives (e.g. a generator producing the children)
+        obs.append(ctx.ob("R07.2", helper_calls[0].caller, helper_calls[0].node, status=INCONCLUSIVE, detail=f"the child ids are computed in {helper_calls[0].caller.short}, which only _do_sprout calls: whether each id is computed after the previous child was registered is not followed into the helper", construct="one-id-per-child"))
+        return obs
     if ok:
         # the id must be computed inside the innermost loop that creates the child (once per child, after the previous append)
         create = [c for c in body_walk(g.node) if isinstance(c, ast.Call) and norm(c.func) == "init_from_config"]
@@ -286,7 +304,7 @@ def r07_2(ctx: Ctx):
             ok = False
             why = "the child id is computed outside the loop that creates the children: every child sprouted from one parent in a round gets the same id"
     obs.append(ctx.ob("R07.2", g, inner_calls[0] if inner_calls else g.node, status=OK if ok else VIOLATION, detail="one id computation per created child, followed by the append to the level (R07.1)" if ok else why, construct="one-id-per-child"))
-    others = [cs for cs in ctx.res.callers_of(f) if cs.caller is not g]
+    others = [cs for cs in ctx.res.callers_of(f) if cs.caller is not g and cs.caller.qualname not in behind]
     if others:
         obs.append(ctx.ob("R07.2", others[0].caller, others[0].node, status=VIOLATION, detail="_next_child_id is used outside _do_sprout"))
     return obs
